@@ -940,3 +940,128 @@ def c08(tier, replay=None):
 
 
 REGISTRY.update({'C17': c17, 'C08': c08})
+
+
+def c12(tier, replay=None):
+    import random
+    from concurrent.futures import ThreadPoolExecutor
+    from .common import seed
+    from .dbproj import schema_of
+    from .engines import runs
+    from .tlc import run_tlc, require_ok, write_cfg
+    from .absmodel import norm_mutation, short
+    report = Report('C12', tier)
+    rng = random.Random(seed() * 4241 + 5)
+    space = [(2, 1, 1), (2, 3, 2)] if tier == 'quick' else [(2, 1, 1), (3, 3, 2), (2, 2, 3), (2, 2, 1)]
+    limit = 150 if tier == 'quick' else 2500
+    recs = []
+    for maxlen, start, alpha in space:
+        cfg = write_cfg('MC_Perturb_%d_%d_%d.cfg' % (maxlen, start, alpha), '''
+SPECIFICATION PSpec
+CONSTANTS
+  MaxLen = %d
+  StartId = %d
+  AlphaId = %d
+  Mergeable = %s
+  EmitRecords = TRUE
+CONSTRAINT PConstraint
+INVARIANT ExecuteOnlyIfReaches
+''' % (maxlen, start, alpha, MERGEABLE_DOC))
+        res = require_ok(run_tlc('Perturb', cfg, workers=16, timeout=3000),
+                         'Perturb.tla len<=%d start=%d alpha=%d' % (maxlen, start, alpha))
+        report.add_tlc('Perturb len<=%d start=%d alpha=%d' % (maxlen, start, alpha), res.stats())
+        start_sig = _start_sig(start)
+        recs += [(r, start_sig) for r in res.records]
+    total = len(recs)
+    # stratify: equal shares per (kind, prediction)
+    strata = {}
+    for item in recs:
+        strata.setdefault((item[0]['kind'], item[0]['prediction']), []).append(item)
+    chosen = []
+    keys = sorted(strata)
+    for k in keys:
+        rng.shuffle(strata[k])
+    while len(chosen) < limit and any(strata[k] for k in keys):
+        for k in keys:
+            if strata[k] and len(chosen) < limit:
+                chosen.append(strata[k].pop())
+
+    def one(item):
+        rec, start_sig = item
+        try:
+            return runs.execute_perturbation(rec, start_sig, names_idx=0)
+        except Exception as e:
+            import traceback
+            return {'harness_error': traceback.format_exc(limit=6)}
+    with ThreadPoolExecutor(12) as ex:
+        observations = list(ex.map(one, chosen))
+    nontrivial = set()
+    herr = 0
+    for (rec, start_sig), obs in zip(chosen, observations):
+        report.coverage['evaluations'] += 1
+        pert = [short(norm_mutation(m)) for m in rec['pert']]
+        base = [short(norm_mutation(m)) for m in rec['seq']]
+        if obs.get('harness_error') or obs.get('setup_error') or 'outcome' not in obs:
+            herr += 1
+            if herr <= 3:
+                report.notes.append('harness/setup problem: %s' % (obs.get('harness_error') or obs.get('setup_error')))
+            continue
+        report.coverage['traces_validated_against_impl'] += 1
+        nontrivial.add(json_key(rec['pert'], rec['kind']))
+        executed = 'evolving' in obs['signals']
+        rejected = obs['outcome'] != 'ok'
+        pre_db, post_db = obs['pre']['db'], obs['post']['db']
+        unchanged = (pre_db == post_db and obs['pre']['book'] == obs['post']['book'])
+        detail = {'valid_evolution': base, 'perturbation': rec['kind'], 'perturbed': pert,
+                  'start': rec['start'], 'prediction': rec['prediction'],
+                  'outcome': obs['outcome'], 'error': obs['error_type'], 'msg': obs['error_msg'],
+                  'writes': obs['writes'][:6], 'sources': obs['sources']}
+        if rejected and not executed:
+            if obs['writes'] or not unchanged:
+                report.fail({'class': 'rejected-but-database-touched'}, detail)
+            if obs['error_type'] != 'CommandError':
+                report.fail({'class': 'rejected-with-non-evolution-error',
+                             'error': obs['error_type'],
+                             'predicted_sim_fails': rec['prediction'] == 'sim-fails'}, detail)
+        elif executed:
+            # it ran SQL: then the pending evolution must have simulated to the models
+            if rejected:
+                # the simulation reached the models and execution failed on the
+                # data (C01/C02 territory, rolled back): not a C12 matter
+                report.notes.append('executed then failed (%s): %s' % (obs['error_msg'][:80], pert))
+            elif not (obs['after_diff_empty'] and not obs['after_required']):
+                report.fail({'class': 'executed-without-reaching-models',
+                             'predicted': rec['prediction']},
+                            dict(detail, after_required=obs['after_required'],
+                                 after_diff_empty=obs['after_diff_empty'],
+                                 after_error=obs['after_error']))
+        # binding: the model's decision vs the command's
+        want_exec = rec['prediction'] == 'reaches'
+        if want_exec and rejected and not executed:
+            report.spec_drift('Perturb.tla predicts reaches, command rejected (%s) for %s / %s'
+                              % (obs['error_msg'][:80], rec['kind'], pert))
+        elif not want_exec and not rejected:
+            report.spec_drift('Perturb.tla predicts %s, command %s for %s / %s'
+                              % (rec['prediction'], 'executed' if executed else 'did nothing',
+                                 rec['kind'], pert))
+        report.sample({'valid': base, 'perturbation': rec['kind'], 'perturbed': pert,
+                       'prediction': rec['prediction'], 'outcome': obs['outcome'],
+                       'error': obs['error_type'], 'writes': len(obs['writes'])})
+    report.coverage['distinct_nontrivial'] = len(nontrivial)
+    report.coverage['exhaustive'] = False
+    report.coverage['rule'] = (
+        'TLC builds every valid evolution up to the length bound (Optimizer!Extend) and applies every '
+        'single perturbation of Perturb.tla (drop, duplicate, swap, retarget-model, rename-field, '
+        'remove-initial, change-attribute, flip-null), deciding sim-fails / residual / reaches with the '
+        'transcribed pipeline: %d cases, of which %d (stratified by perturbation kind and prediction) were '
+        'written into a synthetic project and run through `evolve --execute --noinput`. Verdict: rejected => '
+        'no write statement and identical schema/rows/bookkeeping; executed => a following Evolver finds '
+        'nothing required and an empty diff. Distinct = distinct perturbed evolution.' % (total, len(chosen)))
+    if herr > len(chosen) // 5:
+        from .common import machinery_failure
+        machinery_failure('too many harness errors in C12 (%d of %d)' % (herr, len(chosen)))
+    report.assumptions += ['the models of the target version are rendered from the abstract signature TLC reports']
+    return report.finish()
+
+
+REGISTRY.update({'C12': c12})
